@@ -10,7 +10,9 @@ import Spydr.Edif.Props.C05Denote
 namespace Spydr.Edif.C05
 open Spydr.Edif
 
-/-- **reader_accepts_wellformed** — for EVERY text (no hypothesis on it): if the model reader — tokenizer
+/-- **reader_accepts_wellformed** — for EVERY text on which the MODEL reader answers with a netlist (no other
+    hypothesis; inputs on which the model answers `Err.unsupported` — e.g. a net declared twice, which the real
+    reader accepts through its `ValueError` fallback — are outside the statement): if the model reader — tokenizer
     `lexE`, s-expression reader `readS`, `ofSExp` — returns a netlist, that netlist satisfies the decidable
     predicate `StructWF`:
       * libraries, the definitions of each library, and the ports, instances and cables of each
